@@ -18,13 +18,6 @@ import (
 	"verifharness/internal/hx"
 )
 
-// predictors whose edge handling in jpeg/lossless deviates from H.1.2.1 (Props/C13.lean px_nonconforming_cases)
-func c13EdgeAffected(pred, w, h int) bool {
-	firstLine := pred == 2 || pred == 3 || pred == 6 || pred == 7
-	lineStart := pred == 3 || pred == 5 || pred == 7
-	return (w > 1 && firstLine) || (h > 1 && lineStart)
-}
-
 func c13SameSamples(a, b c02Img) (bool, string) {
 	if a.W != b.W || a.H != b.H || a.NC != b.NC || a.P != b.P {
 		return false, fmt.Sprintf("geometry %dx%dx%d P%d vs %dx%dx%d P%d", a.W, a.H, a.NC, a.P, b.W, b.H, b.NC, b.P)
@@ -64,24 +57,15 @@ func c13EncoderConforms(c *hx.Ctx, codec int, im c02Img, tag string) {
 		}
 	}
 	if err != nil {
+		// every predictor must conform since fix 946feeb (first line Ra, line start Rb): no class is attributed
+		// to the former jll-firstrow-predictor-* finding any more, a recurrence is an ordinary violation
 		cls := "c13-encoder-nonconformant"
-		if codec != 8 && c13EdgeAffected(pred, im.W, im.H) {
-			// the known finding explains the failure only if the same stream, read with the repo's edge
-			// convention in place of H.1.2.1 (and nothing else changed), gives back the source
-			if alt, _, e2 := c13RefDecodeConv(enc, true); e2 == nil {
-				if same, _ := c13SameSamples(im, alt); same {
-					cls = "jll-firstrow-predictor-enc"
-				}
-			}
-		} else if codec == 8 {
+		if codec == 8 {
 			cls = "c13-encoder-nonconformant-sv1"
 		}
 		c02Fail(c, hx.Failure{Class: cls, What: "stream of the real encoder is not decoded to the source by the independent T.81 decoder: " + err.Error(),
 			Input: in, Actual: hx.Hex(enc[:min(len(enc), 200)])})
 		return
-	}
-	if codec != 8 && c13EdgeAffected(pred, im.W, im.H) {
-		c.Count("A:edge-affected-but-equal") // e.g. constant 2^(P-1) images
 	}
 }
 
@@ -167,7 +151,7 @@ func c13DecoderConforms(c *hx.Ctx, sv1 bool, im c02Img, pred int, tableKind int,
 	if im.W*im.H*im.NC <= 48 && !sv1 {
 		c13SpecStream(c, stream, "reference-encoder")
 	}
-	if im.W*im.H*im.NC <= 48 && !cfg.DHTAfterSOF && !cfg.Extras && !cfg.OneDHT && !cfg.RepoEdge {
+	if im.W*im.H*im.NC <= 48 && !cfg.DHTAfterSOF && !cfg.Extras && !cfg.OneDHT {
 		// t81-stream-enc: the Lean specification's stream ENCODER (Spec/T81HEnc.lean) produces the same bytes
 		// as the Go reference encoder for this configuration (tables in ascending destination order)
 		var dests []int
@@ -222,33 +206,14 @@ func c13DecoderConforms(c *hx.Ctx, sv1 bool, im c02Img, pred int, tableKind int,
 		}
 	}
 	dec, od := c02Decode(sv1, stream)
-	// Class predicates. The three repaired defects keep their specific keys (they are "fixed" entries now,
-	// so a recurrence is reported). The still-open edge-rule finding is attributed only when it fully
-	// explains the failure: a wrong reconstruction (never a decode error), and the real decoder returns the
-	// source from the SAME configuration encoded with the repo's edge convention instead of H.1.2.1.
+	// Class predicates of the repaired defects keep their specific keys; all are "fixed" entries now, so a
+	// recurrence of any of them — or any other failure — is reported as a violation.
 	classify := func(generic string, wrongSamples bool) string {
 		switch {
 		case sv1 && maxTd >= 1 && !wrongSamples:
 			return "sv1-sos-selector"
 		case !sv1 && maxTd >= 2 && !wrongSamples:
 			return "jll-td23-rejected"
-		case !sv1 && wrongSamples && c13EdgeAffected(pred, im.W, im.H):
-			alt := cfg
-			alt.RepoEdge = true
-			alt.Tables = map[int]c13Table{}
-			for d := range cfg.Tables { // a table with all 17 categories: the convention changes the category statistics
-				var t c13Table
-				copy(t.Bits[:], []int{0, 1, 5, 1, 1, 1, 1, 1, 1, 1, 1, 1, 1, 1, 0, 0})
-				t.Vals = []byte{0, 1, 2, 3, 4, 5, 6, 7, 8, 9, 10, 11, 12, 13, 14, 15, 16}
-				alt.Tables[d] = t
-			}
-			if d2, o2 := c02Decode(false, c13RefEncode(im, alt)); o2 == "ok" && d2.W == im.W && d2.H == im.H && d2.NC == im.NC && d2.P == im.P {
-				if same, _ := c13SameSamples(im, c02Img{W: d2.W, H: d2.H, NC: d2.NC, P: d2.P, S: c02Samples(d2.Pix, d2.W, d2.H, d2.NC, d2.P)}); same {
-					return "jll-firstrow-predictor-dec"
-				}
-			}
-		case !sv1 && wrongSamples && pred >= 4 && pred <= 6 && im.P >= 15:
-			return "jll-pred456-wrap"
 		}
 		return generic
 	}
@@ -263,9 +228,6 @@ func c13DecoderConforms(c *hx.Ctx, sv1 bool, im c02Img, pred int, tableKind int,
 	if same, where := c13SameSamples(im, got); !same {
 		c02Fail(c, hx.Failure{Class: classify("c13-decoder-nonconformant-"+name, true), What: "real Decode reconstructs a different image from a conformant stream: " + where, Input: in})
 		return
-	}
-	if !sv1 && c13EdgeAffected(pred, im.W, im.H) {
-		c.Count("B:edge-affected-but-equal")
 	}
 }
 
@@ -405,10 +367,10 @@ func c13(c *hx.Ctx) {
 	w := c02NewImg(2, 2, 1, 8)
 	copy(w.S[0], []int{10, 20, 30, 40})
 	for codec := 1; codec <= 8; codec++ {
-		c13EncoderConforms(c, codec, w, "witness")
+		c13EncoderConforms(c, codec, w, "regression-firstrow")
 	}
 	for pred := 1; pred <= 7; pred++ {
-		c13DecoderConforms(c, false, w, pred, 0, "witness")
+		c13DecoderConforms(c, false, w, pred, 0, "regression-firstrow")
 	}
 	c13DecoderConforms(c, true, w, 1, 0, "witness")
 	// per-component DIFFERENT tables on different destinations (a decoder using component 0's table for
